@@ -69,6 +69,7 @@ type c17level struct {
 	escPrompt            string
 	witness, authWitness string
 	targetable           bool
+	unamb                bool // no other level accepts this level\'s canonical prompt
 }
 
 type c17step map[string]string // key -> canonical value (s<hex>, b0, …)
@@ -87,7 +88,8 @@ type c17def struct {
 	class         map[string]int // level key -> prompt class index
 	classes       [][]string
 	checks        string
-	ambiguous     bool // some class has more than one level
+	c04           string // "ok": platform_acquire_reaches_target covers the definition; "exempt:<tag>"
+	ambiguous     bool   // some class has more than one level
 }
 
 func c17parseSteps(s string) []c17step {
@@ -167,18 +169,18 @@ func c17parseDef(file, variant, defLine, witLine string) (*c17def, error) {
 			wkv[f[:i]] = f[i+1:]
 		}
 	}
-	d.checks = wkv["checks"]
+	d.checks, d.c04 = wkv["checks"], wkv["c04"]
 	if wkv["lv"] != "." && wkv["lv"] != "" {
 		for _, e := range strings.Split(wkv["lv"], ",") {
 			p := strings.Split(e, ":")
-			if len(p) != 4 {
+			if len(p) != 5 {
 				return nil, fmt.Errorf("bad witness entry %q", e)
 			}
 			l := d.byKey[c17unhex(p[0])]
 			if l == nil {
 				return nil, fmt.Errorf("witness for unknown level %q", c17unhex(p[0]))
 			}
-			l.witness, l.authWitness, l.targetable = c17unhex(p[1]), c17unhex(p[2]), p[3] == "1"
+			l.witness, l.authWitness, l.targetable, l.unamb = c17unhex(p[1]), c17unhex(p[2]), p[3] == "1", p[4] == "1"
 		}
 	}
 	if wkv["cls"] != "" {
@@ -1006,6 +1008,7 @@ func c17judge(c *ctx, d *c17def, cur, tgt string, auth bool, o *c17sessOut, case
 	}
 	hops := len(d.treePath(cur, tgt)) - 1
 	c.res.Count(fmt.Sprintf("session:hops=%d", hops))
+	c.res.Count("session:c04-link=" + d.c04)
 	c.res.Count("session:" + caseLine[strings.LastIndex(caseLine, " ")+1:] + "-byte-reads(0=whole)")
 	if auth {
 		c.res.Count("session:secret")
@@ -1057,7 +1060,8 @@ func c17judge(c *ctx, d *c17def, cur, tgt string, auth bool, o *c17sessOut, case
 		}
 		if d.class[o.modeOpen] != d.class[want] {
 			fail("open-wrong-level", "after Open the device is in %s, on-open acquires %s", o.modeOpen, want)
-		} else if !d.ambiguous {
+		} else if !d.ambiguous || (d.c04 == "ok" && d.byKey[cur].unamb) {
+			// platform_acquire_reaches_target (unambiguous start, any cache): exactly the tree path
 			// unambiguous prompts: the transition lines are exactly the tree path
 			exp := d.pathLines(cur, want, secret)
 			got := nonEmptyLines(opened)
@@ -1072,7 +1076,9 @@ func c17judge(c *ctx, d *c17def, cur, tgt string, auth bool, o *c17sessOut, case
 			fail("acquire-error", "AcquirePriv(%s) from %s failed: %v", tgt, o.modeOpen, o.acqErr)
 		} else if d.class[o.modeAcq] != d.class[tgt] {
 			fail("acquire-wrong-level", "AcquirePriv(%s) returned nil with the device in %s", tgt, o.modeAcq)
-		} else if !d.ambiguous {
+		} else if !d.ambiguous || (d.c04 == "ok" && (hasAcq || d.byKey[cur].unamb)) {
+			// platform_acquire_reaches_target: the cache is accurate after the on-open acquisition
+			// (or the start prompt is unambiguous): exactly the tree path
 			exp := d.pathLines(o.modeOpen, tgt, secret)
 			got := nonEmptyLines(acq)
 			if strings.Join(got, "\x00") != strings.Join(exp, "\x00") {
